@@ -595,12 +595,60 @@ func stmtTexts(fd *ast.FuncDecl) []string {
 	if fd == nil || fd.Body == nil {
 		return out
 	}
+	stripHooks(fd.Body)
 	for _, st := range fd.Body.List {
 		var b bytes.Buffer
 		printer.Fprint(&b, fset, st)
 		out = append(out, strings.Join(strings.Fields(b.String()), " "))
 	}
 	return out
+}
+
+// isHookStmt: a statement that is nothing but a call (or deferred call) into the instrumentation package
+func isHookStmt(st ast.Stmt) bool {
+	var call *ast.CallExpr
+	switch x := st.(type) {
+	case *ast.ExprStmt:
+		call, _ = x.X.(*ast.CallExpr)
+	case *ast.DeferStmt:
+		call = x.Call
+	}
+	if call == nil {
+		return false
+	}
+	se, ok := call.Fun.(*ast.SelectorExpr)
+	if !ok {
+		return false
+	}
+	id, ok := se.X.(*ast.Ident)
+	return ok && id.Name == "verifhook"
+}
+
+// stripHooks removes the instrumentation statements (verifhook.Point(…) and the like, empty without the build tag) from every block
+// of the body, closures included: the statement lists pinned by the theorems are those of the code, not of its instrumentation, so
+// that adding a yield point does not disturb them
+func stripHooks(body *ast.BlockStmt) {
+	ast.Inspect(body, func(n ast.Node) bool {
+		var list *[]ast.Stmt
+		switch x := n.(type) {
+		case *ast.BlockStmt:
+			list = &x.List
+		case *ast.CaseClause:
+			list = &x.Body
+		case *ast.CommClause:
+			list = &x.Body
+		}
+		if list != nil {
+			kept := (*list)[:0:0]
+			for _, st := range *list {
+				if !isHookStmt(st) {
+					kept = append(kept, st)
+				}
+			}
+			*list = kept
+		}
+		return true
+	})
 }
 
 // ordered sequence of synchronisation-relevant operations of a function body, in source order (closures included):
